@@ -782,7 +782,8 @@ def r20_1_multiset(ctx, rule: str = 'R20.1') -> List[Ob]:
         """`np.concatenate([<spikes of st> for st in trains])` (also hstack; the element may be wrapped in calls that keep
         every value: ravel, asarray, array): True / False (a filter or another source) / None (not this shape)"""
         if isinstance(e, ast.Call) and C.dotted(e.func) in ('np.concatenate', 'np.hstack') and e.args and \
-                isinstance(e.args[0], (ast.ListComp, ast.GeneratorExp)):
+                isinstance(e.args[0], (ast.ListComp, ast.GeneratorExp)) and all(
+                    k_.arg == 'axis' and isinstance(k_.value, ast.Constant) and k_.value.value in (None, 0) for k_ in e.keywords):
             lc = e.args[0]
             if len(lc.generators) != 1:
                 return False
